@@ -219,6 +219,10 @@ def finish(prop, tier, seed, level, acc, t0, rule, bounds, assumptions=(),
     """Write evidence, print VIOLATION / KNOWN-FINDING lines, return exit code."""
     known = {k['signature']: k for k in load_known() if k.get('property') == prop}
     vdir = os.path.join(VERIF, 'violations', prop)
+    if os.path.isdir(vdir):
+        for fn in os.listdir(vdir):
+            if fn.endswith('.json'):
+                os.unlink(os.path.join(vdir, fn))
     new = []
     seen_sig = set()
     known_hit = {}
